@@ -799,19 +799,34 @@ pub fn check_type(
             // Indirects are best handled first.
             (PDFObjT::Reference(refnc), _, IndirectSpec::Allowed)
             | (PDFObjT::Reference(refnc), _, IndirectSpec::Required) => {
-                // lookup referenced object and add it to the queue
-                match ctxt.lookup_obj(refnc.id()) {
-                    Some(obj) => {
-                        // Remove any Required indirect from the check.
-                        let chk = Rc::new(TypeCheck::Rep(c.allow_indirect()));
-                        state.return_check((Rc::clone(obj), chk));
-                    },
+                // lookup the referenced object, following a chain of
+                // references up to its value, and add it to the queue
+                let mut seen = BTreeSet::new();
+                let mut id = refnc.id();
+                let mut target = None;
+                while seen.insert(id) {
+                    match ctxt.lookup_obj(id) {
+                        Some(obj) => match obj.val() {
+                            PDFObjT::Reference(r) => id = r.id(),
+                            _ => {
+                                target = Some(Rc::clone(obj));
+                                break
+                            },
+                        },
+                        None => break,
+                    }
+                }
+                // Remove any Required indirect from the check.
+                let chk = Rc::new(TypeCheck::Rep(c.allow_indirect()));
+                match target {
+                    Some(obj) => state.return_check((obj, chk)),
                     None => {
-                        // References to undefined objects are treated
-                        // as references to the null object.
+                        // References to undefined objects, and
+                        // chains of references that never reach a
+                        // value, are treated as references to the
+                        // null object.
                         // As above, the indirect requirement has been met.
                         let obj = o.place(PDFObjT::Null(()));
-                        let chk = Rc::new(TypeCheck::Rep(c.allow_indirect()));
                         state.return_check((Rc::new(obj), chk));
                     },
                 }
